@@ -15,11 +15,13 @@ pub mod c11;
 pub mod c14;
 pub mod c15;
 pub mod c16;
+pub mod c21;
 pub mod c23;
 pub mod c24;
 pub mod c25;
 pub mod c28;
 pub mod c29;
+pub mod c32;
 pub mod exh;
 pub mod c17;
 pub mod c18;
@@ -45,6 +47,7 @@ pub fn all() -> Vec<Prop> {
         c14::prop(),
         c15::prop(),
         c16::prop(),
+        c21::prop(),
         c23::prop(),
         c24::prop(),
         c25::prop(),
@@ -57,6 +60,7 @@ pub fn all() -> Vec<Prop> {
         c22::prop(),
         c30::prop(),
         c31::prop(),
+        c32::prop(),
     ]
 }
 
@@ -67,6 +71,8 @@ pub fn aux(id: &str, args: &[String]) -> i32 {
         "C17" => c17::aux(args),
         "C22" => c22::aux(args),
         "C31" => c31::aux(args),
+        "C21" => c21::aux(args),
+        "C32" => c32::aux(args),
         _ => {
             eprintln!("no aux entry for {}", id);
             4
